@@ -177,6 +177,21 @@ def rule_depth_guard(ctx):
                 r.violate(fn, "frame:" + ty, "a function on the recursion holds a `%s` by value: each of up to 1024 frames then "
                           "takes size_of of the user's payload, and the depth cap no longer bounds the stack (a chain of "
                           "nodes with an 8 KiB payload needs 17 MiB)" % ty, fb.loc(0))
+        # whoever starts the recursion starts it at depth 0 (a root entered at depth 1 is judged by the stamp test meant
+        # for children and may be deferred again, although try_destruct has already marked it)
+        for (cb_, bi_, t_, c_) in prog.callers_of(DGN):
+            if prog.home(cb_.name) in {prog.home(x) for x in comp}:
+                continue
+            for p in ctx.paths(prog.home(cb_.name)) if prog.home(cb_.name) in prog.bodies else []:
+                for e in p.events:
+                    if e.kind == "call" and e.target == DGN and len(e.args) > 1:
+                        okd = const_of(e.args[1]) == 0
+                        r.instance("%s starts the cascade at depth 0" % prog.home(cb_.name).split("::")[-1], okd)
+                        if not okd:
+                            r.violate(prog.home(cb_.name), "root-depth", "the cascade is entered with depth %s instead of 0: the "
+                                      "root is treated as a child (stamp test, marking loop) although try_destruct has "
+                                      "already marked it, and the cap is reached earlier" % show(e.args[1])[:20], e.loc())
+                break
         if sorted({prog.home(x) for x in comp}) != [DGN]:      # (closures of the function belong to it)
             r.violate(comp[0], "cycle", "unexpected recursion reachable from dispose through %s" % comp)
             continue
@@ -250,6 +265,9 @@ def rule_depth_guard(ctx):
                           "least the smallest stack a thread may legally have (%d B); with realistic frames (T's pop_edges/"
                           "Drop, the outgoing Vec) stacks of a few hundred KiB overflow" % (cap, MIN_FRAME, bound, MIN_LEGAL_STACK),
                           b.loc(0))
+    if ncyc == 0 and DGN in prog.bodies and DGN not in reach:
+        r.violate(DISPOSE, "no-cascade", "dispose does not reach dispose_general_node: a destruction attempt that won its CAS "
+                  "destructs nothing (every object leaks, with DESTRUCTED set)", prog.body(DISPOSE).loc(0))
     r.require(ncyc, 1, "recursion cycles reachable from dispose")
     return r
 
@@ -295,6 +313,16 @@ def rule_immediate(ctx):
                    and norm(q.term[1]) == "utils::Modular::le" and q.value == 0]
             if capc:
                 cap = const_of(capc[0].term[3]) + (1 if capc[0].term[1] == "Gt" else 0)
+                # the cap counts in steps of the recursive call's increment: depth + 2 reaches it after half the nodes
+                steps = set()
+                for p3 in ctx.paths(DGN):
+                    for e3 in p3.events:
+                        if e3.kind == "call" and e3.target == DGN and len(e3.args) > 1:
+                            a3 = _uncast(e3.args[1])
+                            if isinstance(a3, tuple) and a3[0] == "bin" and a3[1] == "Add" and const_of(a3[3]):
+                                steps.add(const_of(a3[3]))
+                if steps:
+                    cap = cap // max(steps)
                 ok = cap >= 1024
                 r.instance("self-deferral at the depth cap (%d)" % cap, ok)
                 if not ok:
@@ -520,7 +548,7 @@ def rule_collect_reentry(ctx):
                    for (_, _, c) in body.calls()):
             continue
         for root in prog.path_roots(name):
-            bad, wrote = None, False
+            bad, wrote, stuck = None, False, None
             for p in Exec(prog, unroll=2).paths(prog.body(root)) if root == UNPIN else ctx.ex.paths(prog.body(root)):
                 ws = [i for i, e in enumerate(p.events) if e.kind == "call" and e.ntarget == "std::cell::Cell::set"
                       and _tls_flag(e.args[0])]
@@ -542,11 +570,21 @@ def rule_collect_reentry(ctx):
                 leaves_set = not clearing   # never cleared on this path: can only over-block, F15-safe
                 if not (owned or restored or leaves_set) and bad is None:
                     bad = p.events[ws[-1]]
+                # ... and whoever set it (owning it) clears it before it returns: a flag left set means this thread never
+                # collects again
+                tested_clear = any(e.kind == "cond" and e.value == 0 and any(e.term == rd.result for rd in reads) for e in p.events)
+                if tested_clear and p.exit[0] == "return" and const_of(last) == 1 and stuck is None:
+                    stuck = p.events[ws[-1]]
             if not wrote:
                 continue
             ok = bad is None
             r.instance("%s writes the thread-wide collecting flag only when it owns it" % root, ok)
             r.functions.add(root)
+            r.instance("%s leaves the thread-wide collecting flag clear when it had set it" % root, stuck is None)
+            if stuck is not None:
+                r.violate(root, "thread-flag-stuck", "a path that set the thread-wide collecting flag returns with it still set: "
+                          "the thread never runs a collection again (its own and everybody's garbage waits for other threads)",
+                          stuck.loc())
             if not ok:
                 r.violate(root, "thread-flag-owner", "writes the thread-wide collecting flag without having tested it clear (and "
                           "without restoring the value read): when this runs inside a collection - a destructor dropping a "
